@@ -67,6 +67,80 @@ def build_and_dump(ctx):
 	return (out1.decode() if rc1 == 0 else None), (out2.decode() if rc2 == 0 else None)
 
 
+SCHED_TRX_C = os.path.join(cbuild.TRXCON, "src/sched_trx.c")
+LOOKUP_FUNCS = ("l1sched_pull_burst", "l1sched_handle_rx_burst")
+
+
+def extract_lookup():
+	""" Text of the two scheduler entry points that look a frame up in the layout (sched_trx.c as a whole
+	    needs the complete modern libosmocore). -> text or None """
+	import re
+	with open(SCHED_TRX_C) as f:
+		lines = f.read().split("\n")
+	out = []
+	for name in LOOKUP_FUNCS:
+		start = next((i for i, l in enumerate(lines) if re.match(r"^(void|int)\s+%s\s*\(" % name, l)), None)
+		if start is None:
+			return None
+		end = next((i for i in range(start, len(lines)) if lines[i].startswith("}")), None)
+		if end is None:
+			return None
+		out.append("\n".join(lines[start:end + 1]))
+	return "\n\n".join(out)
+
+
+def lookup_dump(ctx):
+	""" -> list of (dir, config, tn, fn, chan, bid) as selected by the real lookup code, or None """
+	text = extract_lookup()
+	if text is None:
+		ctx.count("scheduler_lookup_functions_not_found")
+		return None
+	bd = cbuild.BuildDir("c11l")
+	try:
+		tu = os.path.join(bd.path, "sched_lookup_tu.c")
+		with open(tu, "w") as f:
+			f.write("/* generated: function text from %s */\n#define LOOKUP_PART_1\n#include \"sched_lookup_main.c\"\n#undef LOOKUP_PART_1\n" % SCHED_TRX_C)
+			f.write(text + "\n#define LOOKUP_PART_2\n#include \"sched_lookup_main.c\"\n")
+		binary = cbuild.compile_link(bd, "sched_lookup_drv", [tu, os.path.join(cbuild.TRXCON, "src/sched_mframe.c"),
+			os.path.join(cbuild.CDIR, "shim/shim.c")],
+			includes = [os.path.join(cbuild.CDIR, "drivers")] + cbuild.trxcon_includes(bd), cflags = cbuild.GC[0], ldflags = cbuild.GC[1])
+		rc, out, err = cbuild.run_patient(binary, timeout = 120)
+	finally:
+		bd.remove()
+	if rc != 0:
+		ctx.violation("sanitizer", {"side": "trxcon sched_trx.c frame lookup", "stderr": err.decode(errors = "replace")[-2500:]},
+			what = "trxcon frame lookup: driver died (rc=%s): %s" % (rc, cbuild.sanitizer_summary(err) or "no sanitizer report"))
+		return None
+	res = []
+	for l in out.decode().splitlines():
+		p = l.split()
+		if p and p[0] in ("u", "d"):
+			res.append((p[0], int(p[1]), int(p[2]), int(p[3]), int(p[4]), int(p[5])))
+	return res
+
+
+def check_lookup(ctx, layouts):
+	""" The scheduler's own lookup must select frames[fn mod period] of the timeslot's layout, for uplink pulls
+	    and downlink bursts alike (also for frame numbers above 255 / 65535 and at the end of the hyperframe). """
+	res = lookup_dump(ctx)
+	if res is None:
+		return
+	for (d, config, tn, fn, chan, bid) in res:
+		L = layouts.get((config, tn))
+		if not L or not L["frames"]:
+			continue
+		fr = L["frames"][fn % L["period"]]
+		want = (fr[2], fr[3]) if d == "u" else (fr[0], fr[1])
+		ctx.count("scheduler_lookups_checked")
+		ctx.seen(hash(("lookup", d, config, tn, fn)))
+		if (chan, bid) != want:
+			ctx.violation("lookup", {"direction": "uplink pull" if d == "u" else "downlink burst", "config": config, "tn": tn, "fn": fn,
+				"selected": [chan, bid], "layout_says": list(want), "period": L["period"]},
+				what = "trxcon's frame lookup selects (channel %d, burst id %d) for frame %d, the layout's frame %d mod %d holds (%d, %d)"
+					% (chan, bid, fn, fn, L["period"], want[0], want[1]))
+			return
+
+
 def parse_fw(txt):
 	""" -> {task: {"cycle": [(first_fn, set, p3, off)], "wrap": [...]}} """
 	res = {}
@@ -125,6 +199,7 @@ def run(ctx):
 	fw = parse_fw(fw_txt)
 	layouts, reads = parse_tc(tc_txt)
 	ctx.count("trxcon_frame_reads_under_asan", reads or 0)
+	check_lookup(ctx, layouts)
 	ctx.count("firmware_tasks_dumped", len(fw))
 	ctx.count("firmware_schedule_calls", sum(len(v["cycle"]) + len(v["wrap"]) for v in fw.values()))
 
